@@ -8,7 +8,7 @@
    where the encoder excludes them. *)
 From Coq Require Import ZArith List Bool.
 From ADV Require Import C18.Model C18.Spec C18.SpecTest C18.ProofsBase C18.ProofsScalar C18.ProofsSparse
-  C18.ProofsDense C18.ProofsSparseMat C18.ProofsInst C18.TableModel C18.ProofsTable.
+  C18.ProofsDense C18.ProofsSparseMat C18.ProofsInst C18.TableModel C18.ProofsTable C18.ConfigModel C18.ProofsConfig.
 Import ListNotations.
 Open Scope Z_scope.
 
@@ -336,3 +336,68 @@ Proof.
   split. { repeat constructor. }
   eexists. split; vm_compute; reflexivity.
 Qed.
+
+(* ================================================================== DISTRIBUTION CONFIGURATIONS (round 2)
+   A distribution is its STORED parameters (what GetParameters returns) plus its children; F abstract with
+   Go's comparisons fle / flt / feq and flog / fexp / ftrunc / norm as parameters.  Hypotheses (named):
+   feq on 0/1, flog (fexp x) = x and fexp x >= 0 (true in R; in binary64 up to rounding — the tie compares
+   those parameters with a tolerance), the stored mixture weights are a fixed point of the normalisation. *)
+Section ConfigProps.
+Variable F : Type.
+Variables zero one : F.
+Variable fle flt feq : F -> F -> bool.
+Variables flog fexp ftrunc : F -> F.
+Variable norm : list F -> list F.
+Notation imp := (import_cfg F zero one fle flt feq flog ftrunc norm).
+Notation expo := (export F fexp).
+Hypothesis feq_one : feq one one = true.
+Hypothesis feq_zero_one : feq zero one = false.
+Hypothesis flog_fexp : forall x, flog (fexp x) = x.
+Hypothesis fexp_nonneg : forall x, flt (fexp x) zero = false.
+
+(* every registered scalar family without children except the binomial one (15 plain + categorical): whatever
+   the importer can build from ANY parameter list is re-imported unchanged from its own export *)
+Theorem config_leaf_roundtrip :
+  forall f ps st, (plain_fam f = true \/ f = FCategorical) ->
+  imp (Cfg f (JArr (map JNum ps)) []) = Ok (Dist f st []) ->
+  imp (expo (Dist f st [])) = Ok (Dist f st []).
+Proof. intros f ps st Hf H. eapply leaf_roundtrip; eassumption. Qed.
+
+(* nesting: log transform, translation, i.i.d. (n integral) over any round-tripping scalar distribution *)
+Theorem config_wrapper_roundtrip :
+  forall f c d, (f = FLogT \/ f = FTrans \/ (f = FIid /\ ftrunc c = c)) ->
+  scalar_fam (root_fam F d) = true -> imp (expo d) = Ok d ->
+  imp (expo (Dist f [c] [d])) = Ok (Dist f [c] [d]).
+Proof. intros f c d Hf Hs Hd. eapply wrapper_roundtrip; eassumption. Qed.
+
+(* nesting: mixtures with any number of round-tripping components *)
+Theorem config_mixture_roundtrip :
+  forall lw ds, norm lw = lw ->
+  Forall (fun d => scalar_fam (root_fam F d) = true /\ imp (expo d) = Ok d) ds ->
+  imp (expo (Dist FMixture lw ds)) = Ok (Dist FMixture lw ds).
+Proof. intros lw ds Hn Hds. eapply mixture_roundtrip; eassumption. Qed.
+
+(* the binomial distribution: the export carries log(theta), the import reads it as theta *)
+Theorem config_binomial_refuted :
+  forall theta n, flt (flog theta) zero = true -> imp (expo (Dist FBinomial [flog theta; n] [])) = Err.
+Proof. intros theta n H. eapply binomial_refuted; eassumption. Qed.
+
+Theorem config_malformed_panics_refuted :
+  forall x,
+  imp (Cfg FNormal (JArr [JNull; JNum x]) []) = Panic /\
+  imp (Cfg FNormal (JArr [JNum x]) []) = Panic /\
+  imp (Cfg FNormal JNull []) = Panic /\
+  imp (Cfg FNormal JOther []) = Err /\
+  imp (Cfg FUnknown (JArr [JNum x; JNum x]) []) = Err.
+Proof. intros x. eapply config_panics_refuted. Qed.
+End ConfigProps.
+
+(* the configuration hypotheses are satisfiable: integers with log = exp = identity *)
+Example config_hypotheses_satisfiable :
+  let imp := import_cfg Z 0 1 Z.leb Z.ltb Z.eqb (fun z => z) (fun z => z) (fun l => l) in
+  let expo := export Z (fun z => Z.abs z) in
+  Z.eqb 1 1 = true /\ Z.eqb 0 1 = false /\
+  imp (Cfg FNormal (JArr [JNum 3; JNum 2]) []) = Ok (Dist FNormal [3; 2] []) /\
+  imp (expo (Dist FMixture [1; 3] [Dist FNormal [3; 2] []; Dist FLogT [1] [Dist FGamma [2; 5] []]]))
+    = Ok (Dist FMixture [1; 3] [Dist FNormal [3; 2] []; Dist FLogT [1] [Dist FGamma [2; 5] []]]).
+Proof. repeat split; vm_compute; reflexivity. Qed.
